@@ -454,6 +454,9 @@ fn query_expr(rng: &mut Rng, failing: bool) -> String {
         "//*[position() < 3]",
         "(//a)[1]/following::*",
         "//@xml:*",
+        "//namespace::*",
+        "/*/namespace::*",
+        "//*[2]/namespace::p",
         "//@xml:lang",
         "//*[@xml:lang]",
         "count(//@xml:*)",
@@ -611,7 +614,7 @@ impl Gen {
             }
         }
         if markup_ok && self.rng.pct(self.p.markup_pct / 3) {
-            s = self.rng.ps(&["]]>", "--", "?>", "-", "]]", ">", "]", "]>", "a]", "]>b", ">b", "a]]", "-a", "a-", "'", "\"", "'\"", "<!--", "&amp;", "&#60;", "<b/>"]).to_string();
+            s = self.rng.ps(&["]]>", "--", "?>", "-", "]]", ">", "]", "]>", "a]", "]>b", ">b", "a]]", "-a", "a-", "'", "\"", "'\"", "<!--", "&amp;", "&#60;", "<b/>", "&nope;", "u&nope;v", "&e1;", "a&e2;"]).to_string();
         }
         s
     }
@@ -981,7 +984,20 @@ impl Gen {
                     Op::VecItem { vec, idx: self.rng.below(len), out: self.fresh(task) }
                 }
             }
-            12 => Op::ByTag { node, name: if self.rng.pct(50) { "*".into() } else { local_of(self.rng.ps(EL_NAMES)).to_string() }, out: self.fresh(task) },
+            12 => {
+                let held: Vec<S> = w.model.slots.iter().enumerate().filter(|(_, s)| matches!(s, Some(MSlot::TagList(..)))).map(|(i, _)| i).collect();
+                let name = if self.rng.pct(50) { "*".to_string() } else { local_of(self.rng.ps(EL_NAMES)).to_string() };
+                if !held.is_empty() && self.rng.pct(55) {
+                    Op::TagListRead { list: *self.rng.pick(&held), out: self.fresh(task) }
+                } else if self.rng.pct(45) {
+                    // lists taken from the document node are the ones that outlive a change of the document element
+                    let docs: Vec<S> = self.nodes(w, |n| n.kind == Kind::Document);
+                    let from = if self.rng.pct(50) { self.pick_slot(task, &docs).unwrap_or(node) } else { node };
+                    Op::TagList { node: from, name, out: self.fresh(task) }
+                } else {
+                    Op::ByTag { node, name, out: self.fresh(task) }
+                }
+            }
             13 => Op::GetAttrNode { el: node, name: local_of(self.rng.ps(ATTR_NAMES)).to_string(), out: self.fresh(task) },
             14 => {
                 let maps: Vec<S> = w.model.slots.iter().enumerate().filter(|(_, s)| matches!(s, Some(MSlot::Map(_)))).map(|(i, _)| i).collect();
